@@ -28,7 +28,7 @@ RULE = ('C03-style histories on Cache / FanoutCache in which handle events are i
         'value mode) cells')
 DISTINCT = ('event_cells', 'golden_cells')
 REQUIRED = ('calls_judged', 'events_close', 'events_second_handle', 'events_pickle', 'events_thread', 'events_process',
-            'events_fork', 'settings_read_back', 'fanout_histories', 'deque_events', 'index_events', 'django_events',
+            'events_fork', 'events_opened_under_exclusive_lock', 'rollback_journal_histories', 'settings_read_back', 'fanout_histories', 'deque_events', 'index_events', 'django_events',
             'golden_items_read', 'golden_rows_compared', 'golden_schema_compared', 'jsondisk_histories')
 ASSUMPTIONS = ('the Disk class is a constructor argument, not a stored setting: non-pickle reopen events pass the same '
                'class, as a user must', 'golden/ was written by the pinned commit 5a4f96f (tools/mkgolden.py)')
@@ -118,8 +118,52 @@ SETTINGS_POOL = [
 ]
 
 
+class ExclusiveHolder:
+    """A plain SQLite connection per database file holding a lock that also keeps readers out (what a committing
+    writer of a rollback-journal database, a backup tool or a connection in exclusive locking mode holds)."""
+
+    def __init__(self, dirs, wal):
+        import sqlite3
+        self.cons = []
+        try:
+            for sd in dirs:
+                con = sqlite3.connect(os.path.join(sd, 'cache.db'), isolation_level=None, timeout=0)
+                self.cons.append(con)
+                if wal:
+                    con.execute('PRAGMA locking_mode = EXCLUSIVE').fetchall()
+                con.execute('BEGIN EXCLUSIVE')
+        except sqlite3.OperationalError:
+            self.release()
+            raise
+
+    def release(self):
+        for con in self.cons:
+            try:
+                con.execute('ROLLBACK')
+            except Exception:      # noqa: BLE001
+                pass
+            con.close()
+        self.cons = []
+
+
+class ReleaseAfterFailures:
+    """Probe controller: the holder lets go after the k-th statement of the opening handle has failed."""
+
+    def __init__(self, holder, k):
+        self.holder, self.k, self.failed = holder, k, 0
+
+    def gate(self, label, info=None):
+        if label.startswith('err:'):
+            self.failed += 1
+            if self.failed == self.k:
+                self.holder.release()
+
+
 def cache_history(dc, sc, res, rng, kind, label):
     settings = dict(gen.pick(rng, SETTINGS_POOL))
+    if rng.random() < 0.4:
+        settings['sqlite_journal_mode'] = gen.pick(rng, ['delete', 'truncate', 'persist'])
+        res.count('rollback_journal_histories')
     shards = gen.pick(rng, [2, 3]) if kind == 'fanout' else 1
     cfg = dict(settings)
     cfg.setdefault('statistics', False)
@@ -175,7 +219,7 @@ def cache_history(dc, sc, res, rng, kind, label):
                 continue
             drv.real = gen.pick(rng, handles)
             if rng.random() < 0.12:
-                ev = gen.pick(rng, ['close', 'second', 'pickle', 'thread', 'process', 'fork', 'close'])
+                ev = gen.pick(rng, ['close', 'second', 'pickle', 'thread', 'process', 'fork', 'close', 'second_locked'])
                 pos = 'early' if i < len(steps) / 3 else 'late' if i > 2 * len(steps) / 3 else 'middle'
                 res.seen('event_cells', (kind, ev, pos))
                 drv.history.append(('EVENT', (ev,), {}))
@@ -187,6 +231,27 @@ def cache_history(dc, sc, res, rng, kind, label):
                     handles.append(h)
                     check_settings(h, 'a second object opened with no settings')
                     res.count('events_second_handle')
+                elif ev == 'second_locked':
+                    # a handle is opened while the database files are locked against readers too; the lock goes away
+                    # after the third statement of the opening handle has failed
+                    import sqlite3
+                    try:
+                        holder = ExclusiveHolder(drv.shard_dirs, settings.get('sqlite_journal_mode', 'wal') == 'wal')
+                    except sqlite3.OperationalError:
+                        res.count('exclusive_lock_not_obtained')
+                        holder = None
+                    if holder is not None:
+                        ctrl = ReleaseAfterFailures(holder, 3)
+                        probe.set_controller(ctrl)
+                        try:
+                            h = fresh()
+                        finally:
+                            probe.set_controller(None)
+                            holder.release()
+                        handles.append(h)
+                        if ctrl.failed:
+                            res.count('events_opened_under_exclusive_lock')
+                        check_settings(h, 'an object opened while the database was locked exclusively')
                 elif ev == 'pickle':
                     h = pickle.loads(pickle.dumps(drv.real))
                     handles.append(h)
